@@ -67,8 +67,7 @@ CHECKS = {
             "Member sizes at 2^31-1/2^31/2^32-1/2^32, offset sums crossing 2^32, CLM totals, names of 8/9, containers at prefix limits, layer-count mismatches."),
 }
 
-NOT_YET = {p: "check still under construction in this revision (the specification exists, the registered command does not yet)"
-           for p in ("C07", "C11")}    # id -> reason (properties not claimed)
+NOT_YET = {}    # id -> reason (properties not claimed)
 
 
 def main():
